@@ -120,6 +120,12 @@ func (e *envelopeEncryption) intermediateKeyFromEKR(sk accessorRevokable, ekr *E
 			return nil, err
 		}
 
+		// Release the reference obtained from the system key cache once the IK is decrypted,
+		// unless the cache handed back the very key the caller already holds (and releases) itself.
+		if held, ok := sk.(*cachedCryptoKey); !ok || held.CryptoKey != skLoaded.CryptoKey {
+			defer skLoaded.Close()
+		}
+
 		sk = skLoaded
 	}
 
